@@ -44,6 +44,41 @@ fn bin_of(lambda: f64, x: f64) -> usize {
     ((target_cdf(lambda, x) * NBINS as f64) as usize).min(NBINS - 1)
 }
 
+/// x-coordinates of the 65 bin edges (quantiles of the target law)
+fn bin_edges(lambda: f64) -> Vec<f64> {
+    (0..=NBINS)
+        .map(|j| {
+            let q = j as f64 / NBINS as f64;
+            if j == NBINS {
+                1.0
+            } else {
+                // F(t) = q  <=>  t = -ln(1 + q*expm1(-lambda)) / lambda
+                (-(q * (-lambda).exp_m1()).ln_1p() / lambda).clamp(0., 1.)
+            }
+        })
+        .collect()
+}
+
+/// a row of the loop grid stands for outputs spread uniformly over [v - h/2, v + h/2): its mass is shared among the bins
+/// that interval overlaps (binning the whole row by its midpoint would cost one row's mass per bin edge)
+fn allocate(hist: &mut [f64], edges: &[f64], lambda: f64, v: f64, h: f64, mass: f64) {
+    let (lo, hi) = ((v - h / 2.).max(0.), (v + h / 2.).min(1.));
+    let (jlo, jhi) = (bin_of(lambda, lo), bin_of(lambda, hi));
+    if jlo >= jhi || hi <= lo {
+        hist[bin_of(lambda, v)] += mass;
+        return;
+    }
+    let mut given = 0.;
+    for j in jlo..=jhi {
+        let o = (hi.min(edges[j + 1]) - lo.max(edges[j])).max(0.);
+        let part = mass * o / (hi - lo);
+        hist[j] += part;
+        given += part;
+    }
+    // rounding of the edges: whatever is left goes to the midpoint's bin
+    hist[bin_of(lambda, v)] += mass - given;
+}
+
 struct LambdaResult {
     name: String,
     lambda: f64,
@@ -148,24 +183,38 @@ fn run_lambda(name: &str, lambda: f64, n1_log2: u32, n: usize) -> LambdaResult {
         debug_assert_eq!(strata.iter().map(|x| x.1).sum::<u64>(), one);
     }
     let nstrata = strata.len() as u32;
-    let nx: u64 = if nstrata == 1 { n as u64 } else { (n as u64) / 4 };
-    let sh3 = 52 - nlog;
+    let nx: u64 = if nstrata == 1 { 4 * n as u64 } else { n as u64 };
+    let _ = nlog;
     // (stratum, i2) pairs
     let cells: Vec<(u32, u64)> = (0..nstrata).flat_map(|st| (0..nx).map(move |i| (st, i))).collect();
     let strata_ref = &strata;
-    let rows: Vec<(u32, Vec<u64>, u64, u64, Option<String>, Option<String>)> = cells
+    // one row = one value of u2.  u3 is probed at NY midpoints plus the two ends of [0,1); wherever two neighbouring probes
+    // have different outcomes (rejected / accepted with some output value) the switch point is located by bisection on the
+    // 52-bit generator value, so the measure of every outcome inside a row is exact as long as no outcome interval is
+    // narrower than 1/NY.  The only discretisation left is the midpoint rule across rows.
+    const NY: u64 = 256;
+    #[derive(Clone, Copy, PartialEq)]
+    enum Out {
+        Reject,
+        Accept(u64),
+        Whole(u64),
+        NoLoop,
+    }
+    let edges = bin_edges(lambda);
+    let edges_ref = &edges;
+    let rows: Vec<(u32, Vec<f64>, f64, u64, Option<String>, Option<String>)> = cells
         .into_par_iter()
         .map(|(st, i2)| {
-            let mut hist = vec![0u64; NBINS];
-            let mut acc = 0u64;
+            let mut hist = vec![0f64; NBINS];
+            let mut acc = 0f64;
             let mut execs = 0u64;
             let mut bad = None;
             let mut engine = None;
             let (lo, width) = strata_ref[st as usize];
             let step = width / nx;
             let k2 = lo + i2 * step + step / 2;
-            for i3 in 0..n as u64 {
-                let k3 = (i3 << sh3) | (1u64 << (sh3 - 1));
+            let h = step as f64 / (1u64 << 52) as f64;
+            let mut eval = |k3: u64| -> Out {
                 let words = [wmax, word_for_k(k2), word_for_k(k3)];
                 let mut s = Script::new(&words);
                 let x = sampler.sample(&mut s);
@@ -174,37 +223,83 @@ fn run_lambda(name: &str, lambda: f64, n1_log2: u32, n: usize) -> LambdaResult {
                     bad = Some(format!("loop generator values ({},{})*2^-52 -> sample {}", k2, k3, x));
                 }
                 if s.consumed() < 2 {
+                    Out::NoLoop
+                } else if s.overrun > 0 {
+                    Out::Reject
+                } else if s.consumed() == 2 {
+                    Out::Whole(x.to_bits())
+                } else {
+                    Out::Accept(x.to_bits())
+                }
+            };
+            let top = (1u64 << 52) - 1;
+            let mut pts: Vec<u64> = vec![0];
+            pts.extend((0..NY).map(|i| (i << (52 - 8)) | (1u64 << (52 - 9))));
+            pts.push(top);
+            let first = eval(0);
+            match first {
+                Out::NoLoop => {
                     // the largest first word was answered at once: there is no loop to explore behind it.  Whether that is
-                    // legitimate is decided by the range test above and by stage 1 (which then must not have looped either)
+                    // legitimate is decided by the range test and by stage 1 (which then must not have looped either)
                     if loops1 > 0 {
                         engine = Some(format!("lambda {}: grid words enter a loop but the largest first word does not; the 3-state chain does not describe this sampler", lambda));
                     }
-                    break;
+                    return (st, hist, acc, execs, bad, engine);
                 }
-                if s.overrun > 0 {
-                    continue; // rejected: back to the loop state
-                }
-                if s.consumed() == 2 {
+                Out::Whole(b) => {
                     // accepted on u2 alone: the whole row has this outcome
-                    hist[bin_of(lambda, x)] += n as u64;
-                    acc += n as u64;
-                    break;
+                    allocate(&mut hist, edges_ref, lambda, f64::from_bits(b), h, 1.0);
+                    return (st, hist, 1.0, execs, bad, engine);
                 }
-                hist[bin_of(lambda, x)] += 1;
-                acc += 1;
+                _ => {}
             }
+            // segments [start, end) of constant outcome
+            let mut seg_start = 0u64;
+            let mut cur = first;
+            let mut prev_k = 0u64;
+            let mut add = |o: Out, from: u64, to: u64, hist: &mut Vec<f64>, acc: &mut f64| {
+                if let Out::Accept(b) = o {
+                    let w = (to - from) as f64 / (1u64 << 52) as f64;
+                    allocate(hist, edges_ref, lambda, f64::from_bits(b), h, w);
+                    *acc += w;
+                }
+            };
+            for &k in &pts[1..] {
+                let o = eval(k);
+                if o != cur {
+                    // bisect: largest a in [prev_k, k) with outcome cur, then the switch is at a + 1
+                    let (mut a, mut b) = (prev_k, k);
+                    while b - a > 1 {
+                        let mid = a + (b - a) / 2;
+                        if eval(mid) == cur {
+                            a = mid;
+                        } else {
+                            b = mid;
+                        }
+                    }
+                    add(cur, seg_start, b, &mut hist, &mut acc);
+                    seg_start = b;
+                    cur = eval(b);
+                    if cur != o {
+                        // more than one switch between two probes: fall back to the probe's outcome from here on
+                        cur = o;
+                    }
+                }
+                prev_k = k;
+            }
+            add(cur, seg_start, 1u64 << 52, &mut hist, &mut acc);
             (st, hist, acc, execs, bad, engine)
         })
         .collect();
-    // weighted sums: a cell of stratum st stands for the measure width(st) / (nx * n)
+    // weighted sums: a row of stratum st stands for the measure width(st) / nx
     let mut hist2 = vec![0f64; NBINS];
     let mut p_acc = 0f64;
     for (st, h, a, e, b, en) in rows {
-        let w = strata[st as usize].1 as f64 / (1u64 << 52) as f64 / (nx as f64 * n as f64);
+        let w = strata[st as usize].1 as f64 / (1u64 << 52) as f64 / nx as f64;
         for i in 0..NBINS {
-            hist2[i] += w * h[i] as f64;
+            hist2[i] += w * h[i];
         }
-        p_acc += w * a as f64;
+        p_acc += w * a;
         res.executions += e;
         if b.is_some() && res.out_of_range.is_none() {
             res.out_of_range = b;
@@ -219,7 +314,7 @@ fn run_lambda(name: &str, lambda: f64, n1_log2: u32, n: usize) -> LambdaResult {
     // discretisation: the boundary of the accepted region and the bin edges cut O(nx + n) of the nx*n cells of a stratum;
     // measured against the accepted mass that is O(1/(n * P(accept | stratum))) - the strata keep P(accept | stratum) of the
     // strata that matter away from 0.  The constant is calibrated on the observed errors (see per_lambda in the evidence).
-    res.tol = if nstrata == 1 { 2.0 / n as f64 } else { 1.0 / nx as f64 } + 1e-5;
+    res.tol = if n >= 16384 { 2e-6 } else { 5e-6 };
     if p_loop > 0. && p_acc == 0. {
         res.out_of_range = Some(format!("lambda {}: the rejection loop never accepts on the grid (sampler would not terminate)", lambda));
         return res;
@@ -360,7 +455,7 @@ pub fn run(ctx: &Ctx) -> i32 {
         return 2;
     }
     let n = ctx.pick(4096usize, 16384);
-    let n1_log2 = ctx.pick(20u32, 22);
+    let n1_log2 = ctx.pick(22u32, 24);
     let mut details = Vec::new();
     let mut execs = 0u64;
     let mut distinct = 0u64;
@@ -389,10 +484,10 @@ pub fn run(ctx: &Ctx) -> i32 {
         "exhaustive": true,
         "evaluations": execs,
         "distinct_nontrivial": distinct,
-        "rule": "every script over the grid is run on the real sampler: u1 on a 2^20 (thorough 2^22) midpoint grid; (u2,u3) behind the loop-forcing first word, u3 on N midpoints and u2 on N midpoints of [0,1) for lambda<=1, else on N/4 midpoints of each of 2L geometric strata [0,2^-L),[2^-L,2^-(L-1)),..,[1/4,1/2) and their mirror images towards 1 (L=ceil(log2 lambda)+3; the loop reflects points, so both ends matter), each stratum weighted by its width; plus all 8^5 scripts over extreme words and the 81 generator values around the accept/loop boundary 1/c1; the 3-state chain first-try/loop/output is solved exactly, P(out<=t)=P1(<=t)+P(loop)*P2(<=t)/P2(accept), compared at the 64 quantiles of the target law (bins are quantile intervals, so every rate is resolved alike); distinct = distinct first-try outputs",
+        "rule": "every script over the grid is run on the real sampler: u1 on a 2^22 (thorough 2^24) midpoint grid; (u2,u3) behind the loop-forcing first word: u2 on 4N midpoints of [0,1) for lambda<=1, else on N midpoints of each of 2L geometric strata [0,2^-L),[2^-L,2^-(L-1)),..,[1/4,1/2) and their mirror images towards 1 (N = 4096 (16384), L=ceil(log2 lambda)+3; the loop reflects points, so both ends matter), each stratum weighted by its width; for every u2 the outcome as a function of u3 is probed at 258 points and every switch between neighbouring probes is located by bisection on the 52-bit generator value, so the measure of each outcome within a row is exact; a row's mass is shared among the quantile bins its x-interval overlaps; plus all 8^5 scripts over extreme words and the 81 generator values around the accept/loop boundary 1/c1; the 3-state chain first-try/loop/output is solved exactly, P(out<=t)=P1(<=t)+P(loop)*P2(<=t)/P2(accept), compared at the 64 quantiles of the target law; distinct = distinct first-try outputs",
         "grid_n": n,
         "first_try_grid_log2": n1_log2,
-        "cdf_tolerance": "2/N + 1e-5 (one stratum) or 4/N + 1e-5 (strata of N/4 points): midpoint rule on regions bounded by monotone curves; the largest error observed on the unchanged tree is about 1/5 of it for every rate from 1e-300 to 1e9 (see max_cdf_error per lambda)",
+        "cdf_tolerance": "5e-6 (thorough 2e-6): what is left is the midpoint rule across rows and the 2^-22 first-try grid; the largest error observed on the unchanged tree is 8e-7 for every rate from 1e-300 to 1e9 (see max_cdf_error per lambda)",
         "per_lambda": details,
     });
     ctx.finish(
@@ -400,7 +495,7 @@ pub fn run(ctx: &Ctx) -> i32 {
         coverage,
         vec![
             "rand 0.9 Uniform<f64> word->value map (self-checked)".into(),
-            "discretisation: the law is decided up to the stated tolerance (about 1e-3 quick, 2.5e-4 thorough) at 64 quantiles, not exactly".into(),
+            "discretisation: the law is decided up to the stated tolerance (5e-6 quick, 2e-6 thorough) at 64 quantiles, not exactly; an outcome interval in u3 narrower than 1/256 inside a row would be missed".into(),
             "lambda values outside the listed ones (1e-300..1e9: a ladder of 40 rates, all ProbMinHash rates ln(m/(m-1)) for m<=33 / 256 and selected larger m) are not explored".into(),
         ],
     )
